@@ -292,10 +292,38 @@ func c13Populate(t *rapid.T, dir string, names []string, contents map[string][]b
 			}
 			continue
 		}
+		switch string(contents[n]) {
+		case c13KindDir: // a directory where a project file is expected
+			if err := os.Mkdir(p, 0o755); err != nil {
+				t.Fatalf("harness: %v", err)
+			}
+			continue
+		case c13KindDangling: // a symbolic link to nothing
+			if err := os.Symlink("c13-nowhere", p); err != nil {
+				t.Fatalf("harness: %v", err)
+			}
+			continue
+		case c13KindLoop: // a symbolic link to itself
+			if err := os.Symlink(n, p); err != nil {
+				t.Fatalf("harness: %v", err)
+			}
+			continue
+		}
 		if err := os.WriteFile(p, contents[n], 0o644); err != nil {
 			t.Fatalf("harness: %v", err)
 		}
 	}
+}
+
+// directory entries that bear a project file's name but are not readable files
+const (
+	c13KindDir      = "\x00c13-kind:directory"
+	c13KindDangling = "\x00c13-kind:dangling-link"
+	c13KindLoop     = "\x00c13-kind:link-loop"
+)
+
+func c13Odd(b []byte) bool {
+	return string(b) == c13KindDir || string(b) == c13KindDangling || string(b) == c13KindLoop
 }
 
 func TestC13_Analyzer(t *testing.T) {
@@ -333,6 +361,21 @@ func TestC13_Analyzer(t *testing.T) {
 			}
 			contents[n] = c13FileContent(t, n)
 		}
+		// one directory in six has entries that bear a project file's name without being a readable file: a
+		// directory, a dangling symbolic link, a link to itself. Whatever the analyzer makes of those (it may
+		// report an error next to its result, as for a listing that fails), what it reports is still a
+		// deterministic, duplicate-free list of types and sane boosts
+		oddEntries := false
+		if !crowdedDir && len(markers) > 0 && rapid.IntRange(0, 5).Draw(t, "odd-entries") == 0 {
+			for _, n := range markers {
+				if n == ".git" || n == "node_modules" {
+					continue
+				}
+				if k := rapid.SampledFrom([]string{"", "", c13KindDir, c13KindDangling, c13KindLoop}).Draw(t, "odd-kind-"+n); k != "" {
+					contents[n], oddEntries = []byte(k), true
+				}
+			}
+		}
 		d1, d2 := mkdirWork("c13a-"), mkdirWork("c13b-")
 		defer os.RemoveAll(d1)
 		defer os.RemoveAll(d2)
@@ -347,7 +390,7 @@ func TestC13_Analyzer(t *testing.T) {
 		c1, err1 := an.AnalyzeDirectory(d1)
 		c1b, _ := an.AnalyzeDirectory(d1)
 		c2, err2 := wctx.NewAnalyzer().AnalyzeDirectory(d2)
-		if err1 != nil || err2 != nil || c1 == nil || c2 == nil {
+		if ((err1 != nil || err2 != nil) && !oddEntries) || c1 == nil || c2 == nil || c1b == nil {
 			t.Fatalf("AnalyzeDirectory failed: %v %v", err1, err2)
 		}
 		norm := func(c *wctx.Context) wctx.Context { x := *c; x.WorkingDir = ""; return x }
@@ -372,7 +415,7 @@ func TestC13_Analyzer(t *testing.T) {
 		}
 		anchored := false
 		for _, n := range names {
-			if want, ok := c13Anchors[n]; ok {
+			if want, ok := c13Anchors[n]; ok && !c13Odd(contents[n]) {
 				anchored = true
 				if !seen[want] {
 					t.Fatalf("file %q present but project type %q not reported: %v", n, want, c1.ProjectTypes)
@@ -385,6 +428,9 @@ func TestC13_Analyzer(t *testing.T) {
 				unrelatedOnly = false // look-alike names: whether they are recognised is the analyzer's call
 			}
 		}
+		if oddEntries {
+			rec.Label("entries-that-are-not-readable-files")
+		}
 		if len(markers) == 0 && unrelatedOnly && !seen[wctx.ProjectTypeGeneric] {
 			t.Fatalf("directory with no marker file (files=%v) not reported as generic: %v", names, c1.ProjectTypes)
 		}
@@ -395,7 +441,7 @@ func TestC13_Analyzer(t *testing.T) {
 		// the result must be what a fresh directory with the new content gives
 		edited := false
 		for _, n := range names {
-			if n == "package.json" || n == "Makefile" || n == "makefile" {
+			if (n == "package.json" || n == "Makefile" || n == "makefile") && !c13Odd(contents[n]) {
 				contents[n] = c13FileContent(t, n)
 				if err := os.WriteFile(filepath.Join(d1, n), contents[n], 0o644); err != nil {
 					t.Fatalf("harness: %v", err)
@@ -409,6 +455,9 @@ func TestC13_Analyzer(t *testing.T) {
 			c13Populate(t, d3, names, contents)
 			again, _ := an.AnalyzeDirectory(d1)
 			fresh, _ := wctx.NewAnalyzer().AnalyzeDirectory(d3)
+			if again == nil || fresh == nil {
+				t.Fatalf("AnalyzeDirectory returned no context after an in-place edit; files=%v", names)
+			}
 			if !reflect.DeepEqual(norm(again), norm(fresh)) {
 				t.Fatalf("after editing project files in place the directory is analysed as %+v, a fresh directory with the same content as %+v; files=%v", norm(again), norm(fresh), names)
 			}
